@@ -96,7 +96,14 @@ def surface_bookkeeping(chk, prog, inf, step, c_inf, rp_pos, names_rp):
     if f_pond is None:
         raise AnalysisError("infiltration: the ponding formal (actual .surface_storage) vanished")
     # the locals of the surface block, identified by their place in the computation rather than by spelling
-    L = _inf_locals(prog, inf, step, c_inf, rp_pos)
+    try:
+        L = _inf_locals(prog, inf, step, c_inf, rp_pos)
+    except AnalysisError as ex:
+        if any(v["rule"] in ("C02.a", "C02.b") and "infiltration" in v["where"] for v in chk.violations):
+            # the partition identity of infiltration is already refuted; its bookkeeping locals cannot be told apart any more
+            chk.notes["C02.c"] = f"not examined: {ex}"
+            return
+        raise
     f_in, ToStore, RunoffIni, Runoff, InflTot = L["f_in"], L["to_store"], L["runoff_ini"], L["runoff"], L["infl_tot"]
     f_bunds = next((params[i] for i, a in enumerate(c_inf.args) if isinstance(a, ast.Attribute) and a.attr == "bunds"), None)
     f_zb = next((params[i] for i, a in enumerate(c_inf.args) if isinstance(a, ast.Attribute) and a.attr == "z_bund"), None)
